@@ -362,7 +362,7 @@ UNITS = {
         "paired_kani": ["c12_validate_internal"],
     "search_test": "verif_search_c12",
         "trusted": [
-            "verus external_body: PeerCounter::has_seen_sequence ensures r == seen(..) (proved on the real fn by Kani, bounded history length)",
+            "ASSUMED shim contracts: v.iter().any(p) is true iff some element satisfies p; == on [u8; 32] is byte-wise equality; v.retain(p) keeps exactly the elements satisfying p (documented std behaviour). PeerCounter::has_seen_sequence itself is verified here for histories of any length; Kani c12_has_seen_contract re-checks it on the real std code for short histories",
             "verus external_body: current_timestamp() < 2^48 (clock; machine arithmetic on time does not overflow)",
             "verus precondition: last_valid_sequence < u64::MAX (fewer than 2^64 accepted numbers; `last + 1` would overflow)",
             "validate_sequence_internal takes &PeerCounter: that it changes no state is enforced by the Rust type system",
@@ -1271,4 +1271,20 @@ UNITS["seq"]["items"].append(
          "spec": """
     ensures
         marks_kept(old(counters)@, final(counters)@), // @C12/system/cleanup_never_forgets_a_peer_or_its_high_water_mark
+"""})
+
+UNITS["cgv"]["pinned_fns"] = [('src/dht/routing_maintenance/close_group_validator.rs', 'CloseGroupValidator', 'count_confirming_regions', '0909b4ea326d9b66', 'distinct known regions among confirming witnesses')]
+UNITS["select"]["pinned_fns"] = [('src/dht/trust_peer_selector.rs', None, 'xor_distance', 'e3a3e68252875464', 'function of (key, id); the ranking clauses that depend on its value are exercised by the search only'), ('src/dht/trust_peer_selector.rs', 'TrustAwarePeerSelector', 'get_trust_for_node', '3f136dc965ef5050', "asks the trust provider for the node's id")]
+UNITS["mgr"]["pinned_fns"] = [('src/dht_network_manager.rs', 'DhtNetworkManager', 'parse_peer_id_to_key', 'b0ecd280cda1b8fa', 'a function of the peer id string')]
+
+UNITS["seq"]["items"].insert(1,
+        {"impl": "PeerCounter", "fn": "has_seen_sequence",
+         "closures": [{"at": r"\|entry\|", "params": "|entry: &SequenceEntry|", "ret": "bool",
+                       "ensures": "ret == (entry.sequence == sequence && message_hash == entry.message_hash)"}],
+         "rewrite": [(r"entry\.message_hash == message_hash", "verif_arr_eq(&entry.message_hash, &message_hash)", "`==` on [u8; 32] renamed to a shim fn standing for <[u8; 32] as PartialEq>::eq (contract: byte-wise equality)"),
+                     (r"self\.sequence_history\s*\.iter\(\)\s*\.any\(", "verif_iter_any(&self.sequence_history, ", "`v.iter().any(p)` renamed to a shim fn standing for that chain (contract: true iff some element satisfies p); the closure stays in place"),
+                     (r"&message_hash\)\s*\}\s*\)", "&message_hash) }, Ghost(|e: SequenceEntry| e.sequence == sequence && e.message_hash == message_hash))", "ghost predicate argument of the shim (specification only)")],
+         "spec": """
+    ensures
+        r == seen(self, sequence, message_hash), // @C12/seq/seen_iff_an_entry_has_the_same_number_and_hash
 """})
